@@ -25,7 +25,8 @@ CONF = dict(
  'testing/synctest virtual time (GOEXPERIMENT=synctest), runtime.Goexit to end Run after the scripted rounds, prometheus.DefaultRegisterer swapped per scenario',
  'modelled, not verified: time.Duration.Abs / Seconds, context.WithTimeout, channel and select semantics of collectMeasurements, slices.SortFunc'],
     technique=('Coq proofs over a Gallina model of sync.Run: Flocq lemmas (exact products with +-1, truncation, monotone rounding, comparison totality, overflow cases of the cap) '
- 'give the clamp and cap facts; case analysis gives the round-level statements; induction over the round list with the reused measurement slices as state gives '
+ 'give the clamp and cap facts; a rounding-error analysis (relative error 2^-53 per operation, exact int64->float64 conversions of quotient and remainder, '
+ 'floor of a non-negative value) bounds SystemClock.Drift against drift x interval; case analysis gives the round-level statements; induction over the round list with the reused measurement slices as state gives '
  'the history statements and the theorem that every run satisfies the property oracle. Differential execution of the extracted model (bit-exact floats, exact '
  'event sequence Drift/Do/Sleep) against the real sync.Run under virtual time'),
     level_text=('Theorems quantify over all configurations, all int64 drifts, all numbers of reference clocks and peers and all multi-round histories of timely / failing / late '
@@ -34,9 +35,11 @@ CONF = dict(
  '(float64 comparison; integer inequality |c| <= floor(RN(factor x D)) below 2^53 ns). The model is tied to the Go code by comparing the complete event sequence '
  'of every scenario; the property oracle C01_ok (independent of the model of Run) and the drift oracle (Drift = drift x interval up to 2^-48 relative + 1 ns) are '
  "evaluated on the implementation's observations"),
-    level_note=('Trusted: Coq kernel, Flocq as float semantics, hand-written model validated by the correspondence run, extraction, harness, synctest. Not proved in Coq: that '
- "Model/Units.v's SystemClock.Drift is within the drift oracle's tolerance of drift x interval (enforced on every observed Drift result instead); rounds in which "
- "a source failed are checked by the oracle for the bound only (the stale values are the model's business) - the exact value is checked by the model comparison."),
+    level_note=('Trusted: Coq kernel, Flocq as float semantics, hand-written model validated by the correspondence run, extraction, harness, synctest. SystemClock.Drift is now '
+ 'proved close to drift x interval (C01_drift_close: the model satisfies the drift oracle for every int64 drift and interval; C01_drift_within_1ns_2p50: 1 ns + 2^-50 '
+ 'relative; C01_bound_vs_exact_product: a correction that passes the comparison against factor x Drift(interval) is at most factor x drift x interval x (1 + 2^-49) in '
+ 'exact arithmetic) over the whole oracle range 0 < drift, 0 < interval, drift x interval < 2^62 ns. Rounds in which a source failed are checked by the oracle for '
+ "the bound only (the stale values are the model's business) - the exact value is checked by the model comparison."),
     explanation=('sync.Run hands exactly one correction per round to the clock discipline and clamps each side to impact factor x Drift(SyncInterval) before combining; '
  'the proof shows this for every configuration that passes the start-up checks and for every history of source answers (including stale values left in the '
  'reused measurement slices), and the check replays thousands of scripted histories through the real Run under virtual time and compares every Do/Sleep/Drift '
